@@ -213,6 +213,9 @@ private:
   std::shared_ptr<trace_sdk::Sampler> inner_;
 };
 
+static const uint8_t kLinkTid[16] = {0xee, 1, 2, 3, 4, 5, 6, 7, 8, 9, 10, 11, 12, 13, 14, 15};
+static const uint8_t kLinkSid[8]  = {0xee, 1, 2, 3, 4, 5, 6, 7};
+
 // ------------------------------------------------------------------------------------------
 // custom id generator: sequential, IsRandom() == false, unique and non-zero by construction
 // ------------------------------------------------------------------------------------------
@@ -937,10 +940,42 @@ struct Prog
     auto &tracer = sh.tracer[r.chance(1, 5) ? 1 : 0];
     nostd::shared_ptr<trace_api::Span> span;
     int others = sh.in_startspan.fetch_add(1, std::memory_order_relaxed);
-    if (r.chance(1, 6))
-      span = tracer->StartSpan(nostd::string_view(nb.data(), nb.size()), {{"vf.k", static_cast<int64_t>(1)}}, op.o);
-    else
-      span = tracer->StartSpan(nostd::string_view(nb.data(), nb.size()), op.o);
+    // every public StartSpan overload carries the options (parent, kind, start times) through to the SDK
+    {
+      nostd::string_view nm(nb.data(), nb.size());
+      std::map<std::string, int64_t> cattrs{{"vf.k", 1}};
+      trace_api::SpanContext lctx(trace_api::TraceId(kLinkTid), trace_api::SpanId(kLinkSid), trace_api::TraceFlags(1), true);
+      std::vector<std::pair<trace_api::SpanContext, std::map<std::string, std::string>>> clinks{{lctx, {{"l", "1"}}}};
+      unsigned ov = r.chance(1, 2) ? 0 : static_cast<unsigned>(r.range(1, 6));
+      switch (ov)
+      {
+        case 0:
+          span = tracer->StartSpan(nm, op.o);
+          break;
+        case 1:
+          span = tracer->StartSpan(nm, {{"vf.k", static_cast<int64_t>(1)}}, op.o);
+          break;
+        case 2:
+          span = tracer->StartSpan(nm, cattrs, op.o);
+          break;
+        case 3:
+        {
+          opentelemetry::common::KeyValueIterableView<std::map<std::string, int64_t>> view(cattrs);
+          span = tracer->StartSpan(nm, static_cast<const opentelemetry::common::KeyValueIterable &>(view), op.o);
+          break;
+        }
+        case 4:
+          span = tracer->StartSpan(nm, cattrs, clinks, op.o);
+          break;
+        case 5:
+          span = tracer->StartSpan(nm, cattrs, {{lctx, {{"l", "1"}}}}, op.o);
+          break;
+        default:  // (brace attributes + a links container is not callable: that overload constrains the wrong type)
+          span = tracer->StartSpan(nm, {{"vf.k", static_cast<int64_t>(1)}}, {{lctx, {{"l", "1"}}}}, op.o);
+      }
+      if (ov >= 2)
+        C("starts_through_container_or_link_overloads");
+    }
     others = std::max(others, sh.in_startspan.fetch_sub(1, std::memory_order_relaxed) - 1);
     if (others > 0)
       C("starts_overlapping_another_thread");
